@@ -547,8 +547,18 @@ func TimeoutMiddleware(timeout time.Duration) Middleware {
 			ctx.ResponseWriter = tw
 
 			done := make(chan error, 1)
+			// A panic in the handler is carried over to the calling goroutine and
+			// raised again there, where the recovery of the dispatcher (or of a
+			// RecoveryMiddleware further out) answers it; left on this goroutine it
+			// would end the process.
+			panicked := make(chan interface{}, 1)
 
 			go func() {
+				defer func() {
+					if p := recover(); p != nil {
+						panicked <- p
+					}
+				}()
 				err := next(ctx)
 				// Claim the response when handler completes (if not already claimed by timeout)
 				tw.mu.Lock()
@@ -565,6 +575,8 @@ func TimeoutMiddleware(timeout time.Duration) Middleware {
 			select {
 			case err := <-done:
 				return err
+			case p := <-panicked:
+				panic(p)
 			case <-timer.C:
 				// Only send timeout error if handler hasn't started writing
 				if tw.tryClaimResponse() {
@@ -581,7 +593,12 @@ func TimeoutMiddleware(timeout time.Duration) Middleware {
 					return nil
 				}
 				// Handler already started writing, wait for it to finish
-				return <-done
+				select {
+				case err := <-done:
+					return err
+				case p := <-panicked:
+					panic(p)
+				}
 			}
 		}
 	}
